@@ -312,47 +312,77 @@ def directed_stream(chk, R, rng, n):
 
 
 # ------------------------------------------------------------------------------------------------ functions
+SWITCHES = [(True, True), (True, False), (False, True), (False, False)]
+
+
 def fn_stream(chk, R, rng, n):
+    """every program with calls is assembled under all four switch settings; the substituted twin under both settings
+    of the static-value optimisation; all six answers must agree (switches never change a result, a call means its
+    substituted body).  The twin is also checked against the extracted model / denote when it has no macro item."""
     cases = []
     for i in range(n):
         tc, te, pe, feats = c17_gen.gen_fn_case(rng)
-        cases.append(dict(tc=tc, te=te, pe=pe, feats=feats, b=10 if rng.chance(0.5) else 30, s=rng.chance(0.5), m=rng.chance(0.5)))
-    ia = R.impl([(c['tc'], c['b'], c['s'], c['m']) for c in cases])
-    ib = R.impl([(c['te'], c['b'], c['s'], c['m']) for c in cases])
-    da = R.model_run([(c['pe'], c['b'], c['m']) for c in cases], mode="denote")
-    ma = R.model_run([(c['pe'], c['b'], c['m']) for c in cases])
-    dist = {"both_ok": 0, "both_rejected": 0, "static": 0}
+        cases.append(dict(tc=tc, te=te, pe=pe, feats=feats, b=10 if rng.chance(0.5) else 30, m=rng.chance(0.5)))
+    ia = {sw: R.impl([(c['tc'], c['b'], sw[0], sw[1]) for c in cases]) for sw in SWITCHES}
+    ib = {s: R.impl([(c['te'], c['b'], s, c['m']) for c in cases]) for s in (True, False)}
+    modelable = [c for c in cases if 'macro-item' not in c['feats']]
+    da = dict(zip([id(c) for c in modelable], R.model_run([(c['pe'], c['b'], c['m']) for c in modelable], mode="denote")))
+    ma = dict(zip([id(c) for c in modelable], R.model_run([(c['pe'], c['b'], c['m']) for c in modelable])))
+    dist = {"both_ok": 0, "both_rejected": 0, "static": 0, "layout_dependent_differs": 0}
     ndis = 0
-    for c, a, b_, d, mo in zip(cases, ia, ib, da, ma):
-        ca, cb, cd, cmod = asm_gen.canon_impl(a), asm_gen.canon_impl(b_), asm_gen.canon_model(d), asm_gen.canon_model(mo)
-        rep = {"kind": "fn", "program": c['tc'], "substituted": c['te'], "budget": c['b'], "static_opt": c['s'], "matcher_opt": c['m'],
-               "impl_calls": a[:1200], "impl_substituted": b_[:1200]}
-        if ca[0] not in GOOD or cb[0] not in GOOD:
-            chk.violation("implementation crashed or was inconsistent on a function program (%s / %s)" % (ca[0], cb[0]), rep)
+    for i, c in enumerate(cases):
+        ans_c = {sw: ia[sw][i] for sw in SWITCHES}
+        ans_e = {s: ib[s][i] for s in (True, False)}
+        can_c = {sw: asm_gen.canon_impl(a) for sw, a in ans_c.items()}
+        can_e = {s: asm_gen.canon_impl(a) for s, a in ans_e.items()}
+        rep = {"kind": "fn", "program": c['tc'], "substituted": c['te'], "budget": c['b'], "matcher_opt": c['m'],
+               "impl_calls": {"static=%d,matcher=%d" % (int(sw[0]), int(sw[1])): a[:700] for sw, a in ans_c.items()},
+               "impl_substituted": {"static=%d,matcher=%d" % (int(s), int(c['m'])): a[:700] for s, a in ans_e.items()}}
+        if any(x[0] not in GOOD for x in list(can_c.values()) + list(can_e.values())):
+            chk.violation("implementation crashed or was inconsistent on a function program", rep)
             continue
         for f in c['feats']:
             dist["feat_" + f] = dist.get("feat_" + f, 0) + 1
+        cb = can_e[True]
         if cb[0] == "OK":
             chk.nontriv(c['tc'])
-        if cd[0] != "UNSUPPORTED":
-            dist["static"] += 1
-            if asm_streams.sig(cb) != asm_streams.sig(cd):
-                chk.violation("implementation(substituted program) differs from the language definition", dict(rep, denote=d[:600]), found=False)
+        # the switches never change a result (both programs)
+        sigs_c = {sw: asm_streams.sig(x) for sw, x in can_c.items()}
+        if len(set(sigs_c.values())) > 1:
+            chk.violation("a program with function calls is assembled differently under different optimisation switches: %s" % (
+                "; ".join("%s -> %s" % (k, str(v)[:90]) for k, v in sigs_c.items())), rep)
+            continue
+        if asm_streams.sig(can_e[True]) != asm_streams.sig(can_e[False]):
+            chk.violation("the substituted program is assembled differently with and without the static-value optimisation", rep)
+            continue
+        static = False
+        if id(c) in da:
+            cd, cmod = asm_gen.canon_model(da[id(c)]), asm_gen.canon_model(ma[id(c)])
+            if cd[0] != "UNSUPPORTED":
+                static = True
+                dist["static"] += 1
+                if asm_streams.sig(cb) != asm_streams.sig(cd):
+                    chk.violation("implementation(substituted program) differs from the language definition", dict(rep, denote=da[id(c)][:600]), found=False)
+                    ndis += 1
+                    continue
+            if asm_streams.sig(cb) != asm_streams.sig(cmod):
+                chk.violation("model/implementation correspondence broken on the substituted program: impl %s model %s" % (str(cb)[:160], str(cmod)[:160]),
+                              dict(rep, model=ma[id(c)][:600]), found=False)
                 ndis += 1
                 continue
-        if asm_streams.sig(cb) != asm_streams.sig(cmod):
-            chk.violation("model/implementation correspondence broken on the substituted program: impl %s model %s" % (str(cb)[:160], str(cmod)[:160]),
-                          dict(rep, model=mo[:600]), found=False)
-            ndis += 1
-            continue
+        ca = can_c[(True, c['m'])]
         if asm_streams.sig(ca) != asm_streams.sig(cb):
+            if not static and ('cascading-isa' in c['feats'] or 'macro-item' in c['feats']) and (ca[0] == "ERR" or cb[0] == "ERR"):
+                # several consistent layouts / convergence may legitimately differ between the two texts
+                dist["layout_dependent_differs"] += 1
+                continue
             chk.violation("a program with function calls is assembled differently from the program with the calls substituted: calls %s, substituted %s" % (
                 str(asm_streams.sig(ca))[:200], str(asm_streams.sig(cb))[:200]), rep)
             continue
         dist["both_ok" if cb[0] == "OK" else "both_rejected"] += 1
     chk.count("functions", len(cases), **dist)
     chk.sample({"function_program": cases[0]['tc'], "substituted": cases[0]['te']})
-    return 2 * len(cases), ndis
+    return 6 * len(cases), ndis
 
 
 def depth_stream(chk, R, rng, quick):
@@ -430,7 +460,11 @@ def replay(chk, rep):
     out = R.impl([(t, b, s, m) for (_, t) in texts])
     for (k, t), a in zip(texts, out):
         print("%s:\n%s\nimplementation now: %s\n" % (k, t, a[:800]))
+    if r.get("kind") == "fn":
+        for sw in SWITCHES:
+            a = R.impl([(r["program"], b, sw[0], sw[1])])[0]
+            print("calls, static=%d matcher=%d now: %s" % (int(sw[0]), int(sw[1]), a[:300]))
     for k in ("impl_macro", "impl_inlined", "impl_calls", "impl_substituted", "impl", "expected_bits"):
         if k in r:
-            print("recorded %s: %s" % (k, str(r[k])[:800]))
+            print("recorded %s: %s" % (k, str(r[k])[:1600]))
     return 0
